@@ -666,7 +666,7 @@ func (fv *FV) assumeWF(st *State, v Val) {
 			st.assume(fv.rangeFact(v.T, v.Typ))
 		}
 	case "Iface":
-		st.assume(fmt.Sprintf("(and (<= 0 (ityp %s)) (<= (ival %s) %s) (=> (= (ityp %s) 0) (= (ival %s) 0)))", v.T, v.T, st.alloc, v.T, v.T))
+		st.assume(fmt.Sprintf("(and (<= 0 (ityp %s)) (<= 0 (ival %s)) (<= (ival %s) %s) (=> (= (ityp %s) 0) (= (ival %s) 0)))", v.T, v.T, v.T, st.alloc, v.T, v.T))
 		// an interface declared in the library can only hold the library's implementors
 		if n, ok := v.Typ.(*types.Named); ok && n.Obj().Pkg() != nil && fv.eng.scopePkgs[n.Obj().Pkg().Path()] {
 			if it, ok := n.Underlying().(*types.Interface); ok {
@@ -732,6 +732,7 @@ func (fv *FV) execInstr(st *State, in ssa.Instruction, rest func(*State)) bool {
 		fv.setHeap(st, sort, fmt.Sprintf("(store %s %s %s)", fv.heap(st, sort), r, fv.u.zero(sort)))
 		fv.zeroGhostFields(st, et, r)
 		fv.bind(st, x, Val{T: r, S: "Int", Typ: x.Type()})
+		st.fr.allocs = append(st.fr.allocs, localAlloc{x, r, sort})
 	case *ssa.BinOp:
 		fv.bind(st, x, fv.binOp(st, x))
 	case *ssa.UnOp:
@@ -1076,4 +1077,49 @@ func (fv *FV) zeroGhostFields(st *State, t types.Type, ref string) {
 		hk := "G_" + gf.Struct + "_" + gf.Name
 		fv.setHeapK(st, hk, gf.Sort, fmt.Sprintf("(store %s %s %s)", fv.ghostHeap(st, gf), ref, fv.u.zero(gf.Sort)))
 	}
+}
+
+type localAlloc struct {
+	instr *ssa.Alloc
+	ref   string
+	sort  string
+}
+
+// privateInLoop: the local is only accessed through field/index addressing
+// (it never escapes to a call, an interface, another variable or a phi), and
+// no store inside the loop blocks targets it. Its content is then unchanged by
+// the loop.
+func privateInLoop(a *ssa.Alloc, blocks map[*ssa.BasicBlock]bool) bool {
+	var ok func(v ssa.Value, depth int) bool
+	ok = func(v ssa.Value, depth int) bool {
+		if depth > 6 || v.Referrers() == nil {
+			return false
+		}
+		for _, u := range *v.Referrers() {
+			switch x := u.(type) {
+			case *ssa.FieldAddr:
+				if !ok(x, depth+1) {
+					return false
+				}
+			case *ssa.IndexAddr:
+				if x.X != v || !ok(x, depth+1) {
+					return false
+				}
+			case *ssa.UnOp:
+				// load
+			case *ssa.Store:
+				if x.Val == v {
+					return false // the address itself is stored somewhere
+				}
+				if blocks[x.Block()] {
+					return false
+				}
+			case *ssa.DebugRef:
+			default:
+				return false
+			}
+		}
+		return true
+	}
+	return ok(a, 0)
 }
